@@ -55,11 +55,18 @@ pub async fn install_session(app: &Arc<rnacos::common::appdata::AppShareData>, s
         CacheValue::UserSession(Arc::new(session)),
         ttl,
     ));
-    app.raft_request_route
-        .request(ClientRequest::CacheReq { req })
-        .await
-        .map_err(|e| e.to_string())?;
-    Ok(())
+    let key = CacheKey::new(CacheType::UserSession, Arc::new(s["token"].as_str().unwrap_or("").to_owned()));
+    for _ in 0..10 {
+        app.raft_request_route
+            .request(ClientRequest::CacheReq { req: req.clone() })
+            .await
+            .map_err(|e| e.to_string())?;
+        if ttl <= 2 || super::node::cache_has(app, &key).await {
+            return Ok(());
+        }
+        tokio::time::sleep(std::time::Duration::from_millis(200)).await;
+    }
+    Err("session not readable after installation".to_owned())
 }
 
 /// one request description -> actix test request; None when the URI is not acceptable to the HTTP layer
@@ -125,9 +132,19 @@ where
                     "content_type": hv("Content-Type"),
                     "location": hv("Location"),
                 });
-                let body = match actix_web::body::to_bytes(resp.into_body()).await {
-                    Ok(b) => String::from_utf8_lossy(&b).into_owned(),
-                    Err(_) => String::new(),
+                // a streaming handler (SSE) never ends its body: give up after 2 s
+                let body = match tokio::time::timeout(
+                    std::time::Duration::from_secs(2),
+                    actix_web::body::to_bytes(resp.into_body()),
+                )
+                .await
+                {
+                    Ok(Ok(b)) => String::from_utf8_lossy(&b).into_owned(),
+                    Ok(Err(_)) => String::new(),
+                    Err(_) => {
+                        o["body_timeout"] = Value::Bool(true);
+                        String::from("<stream>")
+                    }
                 };
                 o["body_len"] = Value::from(body.len() as u64);
                 if let Some(name) = r.get("save_token").and_then(|x| x.as_str()) {
